@@ -3,7 +3,8 @@ C08 (stages after parsing), part: the type-system checker.
 
 The only recursion of `check_type_system_document` that is not structural is the breadth-first search of
 `check_directive_recursion` (a `loop { … }` in the Rust code); the model `recLoop` runs it with `|T| + 2` rounds of fuel
-and a SILENT out-of-fuel branch (`[]`).  Here: `recLoopX` = the same loop with an ARBITRARY out-of-fuel behaviour `Z`,
+and a SILENT out-of-fuel branch (`[]`) — and, since fix 2e4a65e, the recursion of `directives_in_type` through nested input
+objects inside it (model `ditWalk`, `|T| + 1` nesting levels of fuel, silent out-of-fuel branch; second part of this file).  Here: `recLoopX` = the same loop with an ARBITRARY out-of-fuel behaviour `Z`,
 and the proof that for every document, every directive definition (canonical or not, in the document or not) and
 every fuel `≥ |T| + 2` the out-of-fuel branch is never evaluated (`checkTs_fuel`).  The measure is C05's `unseen`
 (directive names of the document not yet in `seen`): every round that continues puts the name of a definition held by
@@ -11,6 +12,7 @@ the checker's hash map into `seen`, whether or not it reports a diagnostic (C05 
 without diagnostics, which is what its exactness theorem needed).
 -/
 import NitroVerif.Lemmas.CheckTsRec
+import NitroVerif.Lemmas.CheckTsWalk
 namespace NitroVerif.Stages
 open NitroVerif.Gql NitroVerif.CheckTs NitroVerif.ValidTs
 
@@ -153,39 +155,97 @@ theorem checkDirectiveRecursion_fuel (T : TsDoc) (d : DirectiveDef) (Z : List Na
     have hle := unseen_le T (recRound T d.name [] [d]).1
     rw [recLoopX_indep T d.name Z (fun _ _ => []) k (T.length + 1) _ _ next_canonical (by omega) (by omega)]
 
-/-! ### the whole checker with a fuel parameter -/
+/-! ### the walk through nested input objects (fix 2e4a65e) with a fuel parameter -/
+
+/-- the behaviour of `directives_in_type` where the fuel of its model runs out -/
+abbrev WalkZ := TypeDef → List Name → List Directive × List Name
+
+/-- `dirSuccessors` with `m` levels of fuel for each walk of `directives_in_type` and the behaviour `ZT` when it runs out -/
+def dirSuccessorsX (T : TsDoc) (m : Nat) (ZT : WalkZ) (d : DirectiveDef) : List DirectiveDef :=
+  (d.args.flatMap fun a =>
+      a.dirs ++ (match lastTypeDef? T a.ty.unwrapped with
+                 | none => []
+                 | some t => (ditWalkX T ZT m t []).1)).filterMap fun dir => lastDirectiveDef? T dir.name
+
+def recRoundX (T : TsDoc) (m : Nat) (ZT : WalkZ) (start : Name) :
+    List Name → List DirectiveDef → List Name × List Err × List DirectiveDef
+  | seen, [] => (seen, [], [])
+  | seen, d :: ds =>
+    if seen.contains d.name then
+      let r := recRoundX T m ZT start seen ds
+      (r.1, (if d.name == start then [(ErrKind.RecursingDirective, d.pos)] else []) ++ r.2.1, r.2.2)
+    else
+      let r := recRoundX T m ZT start (d.name :: seen) ds
+      (r.1, r.2.1, dirSuccessorsX T m ZT d ++ r.2.2)
+
+/-- the search with BOTH fuels explicit: `n` rounds (out-of-fuel behaviour `Z`), `m` nesting levels per walk (`ZT`) -/
+def recLoopXX (T : TsDoc) (start : Name) (Z : List Name → List DirectiveDef → List Err) (m : Nat) (ZT : WalkZ) :
+    Nat → List Name → List DirectiveDef → List Err
+  | 0, seen, cur => Z seen cur
+  | fuel + 1, seen, cur =>
+    let r := recRoundX T m ZT start seen cur
+    if r.2.2.isEmpty then r.2.1 else r.2.1 ++ recLoopXX T start Z m ZT fuel r.1 r.2.2
+
+/-- with `m ≥ |T| + 1` the walk never reaches its out-of-fuel branch: the successors are those of the model -/
+theorem dirSuccessorsX_eq (T : TsDoc) (m : Nat) (ZT : WalkZ) (hm : T.length + 1 ≤ m) (d : DirectiveDef) :
+    dirSuccessorsX T m ZT d = dirSuccessors T d := by
+  unfold dirSuccessorsX dirSuccessors
+  congr 2
+  funext a
+  cases hl : lastTypeDef? T a.ty.unwrapped with
+  | none => rfl
+  | some t => simp only [directivesInType_fuel T ZT m hm t (tcanonical_of_lookup hl)]
+
+theorem recRoundX_eq (T : TsDoc) (m : Nat) (ZT : WalkZ) (hm : T.length + 1 ≤ m) (start : Name) :
+    ∀ (cur : List DirectiveDef) (seen : List Name), recRoundX T m ZT start seen cur = recRound T start seen cur
+  | [], _ => rfl
+  | d :: ds, seen => by
+    simp only [recRoundX, recRound, recRoundX_eq T m ZT hm start ds, dirSuccessorsX_eq T m ZT hm]
+
+theorem recLoopXX_eq (T : TsDoc) (start : Name) (Z : List Name → List DirectiveDef → List Err) (m : Nat) (ZT : WalkZ)
+    (hm : T.length + 1 ≤ m) : ∀ (n : Nat) (seen : List Name) (cur : List DirectiveDef),
+    recLoopXX T start Z m ZT n seen cur = recLoopX T start Z n seen cur
+  | 0, _, _ => rfl
+  | n + 1, seen, cur => by
+    simp only [recLoopXX, recLoopX, recRoundX_eq T m ZT hm, recLoopXX_eq T start Z m ZT hm n]
+
+/-! ### the whole checker with fuel parameters -/
 
 def checkDirectiveDefX (T : TsDoc) (S : Schema) (n : Nat) (Z : List Name → List DirectiveDef → List Err)
-    (d : DirectiveDef) : List Err :=
-  recLoopX T d.name Z n [] [d] ++
+    (m : Nat) (ZT : WalkZ) (d : DirectiveDef) : List Err :=
+  recLoopXX T d.name Z m ZT n [] [d] ++
   (if reserved d.name then [(ErrKind.UnscoUnsco, d.namePos)] else []) ++
   checkArgsDef S d.args
 
-def checkItemX (T : TsDoc) (S : Schema) (n : Nat) (Z : List Name → List DirectiveDef → List Err) : TsItem → List Err
+def checkItemX (T : TsDoc) (S : Schema) (n : Nat) (Z : List Name → List DirectiveDef → List Err)
+    (m : Nat) (ZT : WalkZ) : TsItem → List Err
   | .schemaDef s => checkSchemaDef T S s
   | .typeDef t => checkTypeDef T S t
-  | .directiveDef d => checkDirectiveDefX T S n Z d
+  | .directiveDef d => checkDirectiveDefX T S n Z m ZT d
   | .schemaExt _ => []
   | .typeExt _ => []
 
 /-- `check_type_system_document` run with `n` rounds of fuel for each directive-recursion search and the behaviour `Z`
-    when the fuel runs out (`check_unique_names`, which comes first since fix 8cdbacf, is one bounded pass over the
-    definitions with two vectors — `iter().find`, `push` — and has neither a panic site nor fuel) -/
-def checkSchemaX (T : TsDoc) (n : Nat) (Z : List Name → List DirectiveDef → List Err) : List Err :=
-  checkUniqueNames T ++ T.flatMap (checkItemX T ⟨T⟩ n Z)
+    when that fuel runs out, and `m` nesting levels of fuel for each walk of `directives_in_type` through nested input
+    objects with the behaviour `ZT` when that runs out (`check_unique_names`, which comes first since fix 8cdbacf, is one
+    bounded pass over the definitions with two vectors — `iter().find`, `push` — and has neither a panic site nor fuel) -/
+def checkSchemaX (T : TsDoc) (n : Nat) (Z : List Name → List DirectiveDef → List Err) (m : Nat) (ZT : WalkZ) : List Err :=
+  checkUniqueNames T ++ T.flatMap (checkItemX T ⟨T⟩ n Z m ZT)
 
 theorem checkItemX_eq (T : TsDoc) (S : Schema) (n : Nat) (Z : List Name → List DirectiveDef → List Err)
-    (hn : T.length + 2 ≤ n) (it : TsItem) : checkItemX T S n Z it = checkItem T S it := by
+    (m : Nat) (ZT : WalkZ) (hn : T.length + 2 ≤ n) (hm : T.length + 1 ≤ m) (it : TsItem) :
+    checkItemX T S n Z m ZT it = checkItem T S it := by
   cases it with
   | directiveDef d =>
-    simp only [checkItemX, checkItem, checkDirectiveDefX, checkDirectiveDef, checkDirectiveRecursion_fuel T d Z n hn]
+    simp only [checkItemX, checkItem, checkDirectiveDefX, checkDirectiveDef, recLoopXX_eq T d.name Z m ZT hm,
+      checkDirectiveRecursion_fuel T d Z n hn]
   | _ => rfl
 
-theorem checkSchemaX_eq (T : TsDoc) (n : Nat) (Z : List Name → List DirectiveDef → List Err)
-    (hn : T.length + 2 ≤ n) : checkSchemaX T n Z = checkSchema T := by
+theorem checkSchemaX_eq (T : TsDoc) (n : Nat) (Z : List Name → List DirectiveDef → List Err) (m : Nat) (ZT : WalkZ)
+    (hn : T.length + 2 ≤ n) (hm : T.length + 1 ≤ m) : checkSchemaX T n Z m ZT = checkSchema T := by
   unfold checkSchemaX checkSchema checkSchemaItems
   congr 2
   funext it
-  exact checkItemX_eq T ⟨T⟩ n Z hn it
+  exact checkItemX_eq T ⟨T⟩ n Z m ZT hn hm it
 
 end NitroVerif.Stages
